@@ -199,6 +199,10 @@ def case(g, tier, ci):
         forced = list(forced) + [{"op": "tl.repvary", "id": "tvbad", "seq": "s", "to": "tvbad", "lens": [2, 2, 2, 2, 2], "poss": [1, 1],
                                   "vars": [{"chan": 1, "name": n0, "arg": 0, "vals": [enc(0.25), enc(0.5)]},
                                            {"chan": 1, "name": n0, "arg": enc("duration"), "vals": [enc(info["counts"][0] / SR), enc(0)]}]}]
+    if N % 4 == 2:
+        # the source blueprint gets another sample rate and is put on the element's channel again: the element holds it as it is now
+        forced = list(forced) + [{"op": "bp.setSR", "id": "b2", "SR": enc(SR * 2)}, {"op": "el.addBP", "id": "ec", "ch": 2, "bp": "b2"},
+                                 {"op": "bp.setSR", "id": "b", "SR": enc(SR * 2)}, {"op": "el.addBP", "id": "ec", "ch": 1, "bp": "b"}]
     arbs = [n for n, f in segs if f == "arb"]
     if arbs:
         # the keyword dict of an arb_func segment is handed on by copy() / + / addBluePrint as it is: an edit of it on one
